@@ -849,6 +849,23 @@ fn dump<'tcx>(tcx: TyCtxt<'tcx>) {
                     if let Ok(cv) = tcx.const_eval_poly(did) {
                         o.push(("val", cx.const_value(cv, t)));
                     }
+                } else if matches!(kind, DefKind::AssocConst { .. }) {
+                    // a constant of a generic impl (e.g. `const MASK: u32 = (1 << BITS) - 1`) has no single value: emit its
+                    // initialiser as a zero-argument body so that the interpreter can evaluate it under the caller's
+                    // generic arguments
+                    let body = tcx.mir_for_ctfe(did);
+                    let bcx = BodyCx { cx: &cx, body, owner: did, env };
+                    let mut f: Vec<(&'static str, J)> = Vec::new();
+                    f.push(("path", s(cx.path(did))));
+                    f.push(("kind", s("const_body")));
+                    f.push(("pub", J::B(false)));
+                    f.push(("reachable", J::B(false)));
+                    f.push(("derived", J::B(false)));
+                    f.push(("generics", generics_json(&cx, did)));
+                    f.push(("span", cx.span(tcx.def_span(did))));
+                    f.extend(bcx.body_json());
+                    f.push(("promoted", J::A(Vec::new())));
+                    fns.push(J::O(f));
                 }
                 consts.push(J::O(o));
             }
